@@ -185,6 +185,7 @@ def run(tier):
     C = Check("C16", "other", tier, "abstract interpretation of the generated FromDeb822/ToDeb822 impls against a list-of-pairs paragraph model (static)",
               ["rustc macro expansion + HIR/typeck", "hirai + symbolic string domain"])
     check_structs(F, C)
+    check_macro_attribute_scan(F, C)
     check_backends(F, C)
     check_empty_value(F, C)
     C.assumptions += ["opaque field types (lossy Relations, Version, Url, NaiveDate, PathBuf, ParsedVcs) print and parse an atom unchanged: " + "; ".join("%s (%s)" % kv for kv in OPAQUE_TYPES.items()),
@@ -377,6 +378,22 @@ def check_empty_value(F, C):
         C.ob(RP + "/lossless-empty-value", "Entry::new with an empty value", ok, detail + " (an empty value must still give a newline-terminated field with an empty VALUE)", f["sp"])
     finally:
         hirai.INT_BOUND = old
+
+
+def check_macro_attribute_scan(F, C):
+    """the shipped structs put all options of a field into one #[deb822(...)] attribute, so their expansions cannot show
+    whether the macro honours options spread over several attributes; decided on the macro itself: the loops of
+    extract_field_attributes (over the field's attributes, and over the items of one attribute) run to completion -
+    no hand-written `break` leaves them early"""
+    k = "deb822_derive::extract_field_attributes"
+    f = F.fn(k)
+    if not C.ob(RP + "/anchor", k, f is not None, "not found"):
+        return
+    loops = [x for x in facts.walk(f["body"]) if x.get("k") == "Loop"]
+    loop_sps = {x.get("sp") for x in loops}
+    user_breaks = [x for x in facts.walk(f["body"]) if x.get("k") == "Break" and x.get("sp") not in loop_sps]
+    C.ob(RP + "/macro-attribute-scan", k, len(loops) >= 2 and not user_breaks,
+         "found %d loops and hand-written break(s) at %s: options in a later #[deb822(...)] attribute (or later items) of the same field would be ignored" % (len(loops), [x.get("sp") for x in user_breaks]), f.get("sp", ""))
 
 
 def check_backends(F, C):
